@@ -115,9 +115,11 @@ func (o OneOfSchema[KeyType]) UnserializeType(data any) (result any, err error) 
 		if !ok {
 			return result, &ConstraintError{
 				Message: fmt.Sprintf(
-					"Invalid key type for one-of: '%T'",
+					"Invalid key type for one-of: '%T' (key '%v')",
+					k.Interface(),
 					k.Interface(),
 				),
+				Path: []string{fmt.Sprintf("%v", k.Interface())},
 			}
 		}
 		typedData[keyString] = v.Interface()
